@@ -1489,7 +1489,9 @@ class sptensor:
         tnt = self.to_sptenmat(rdims=np.array([n])).double().transpose()
         y = tnt.transpose().dot(tnt)
         if r < y.shape[0] - 1:
-            _, v = scipy.sparse.linalg.eigs(y, r)
+            w, v = scipy.sparse.linalg.eigsh(y, r)
+            v = v[:, (-np.abs(w)).argsort()]
+            v = v[:, :r]
         else:
             logging.debug(
                 "Greater than or equal to sptensor.shape[n] - 1 eigenvectors requires"
